@@ -1,7 +1,7 @@
 use crate::io_ext::{ReadExt, WriteExt};
 use std::io::{Read, Write};
 
-use crate::common::C3Vector;
+use crate::common::{C3Vector, check_count};
 use crate::error::Result;
 use crate::version::M2Version;
 
@@ -240,27 +240,35 @@ impl M2PhysicsData {
         let joints_offset = reader.read_u32_le()?;
 
         // Parse physics shapes
-        let mut shapes = Vec::with_capacity(shapes_count as usize);
+        let mut shapes = Vec::new();
         if shapes_count > 0 {
             reader.seek(std::io::SeekFrom::Start(shapes_offset as u64))?;
+            shapes.reserve_exact(check_count(
+                reader,
+                shapes_count as u64,
+                M2PhysicsShape::size_in_bytes(),
+            )?);
             for _ in 0..shapes_count {
                 shapes.push(M2PhysicsShape::parse(reader)?);
             }
         }
 
         // Parse physics bodies
-        let mut bodies = Vec::with_capacity(bodies_count as usize);
+        let mut bodies = Vec::new();
         if bodies_count > 0 {
             reader.seek(std::io::SeekFrom::Start(bodies_offset as u64))?;
+            bodies.reserve_exact(check_count(reader, bodies_count as u64, 4)?);
             for _ in 0..bodies_count {
                 bodies.push(reader.read_u32_le()?);
             }
         }
 
         // Parse physics joints
-        let mut joints = Vec::with_capacity(joints_count as usize);
+        let mut joints = Vec::new();
         if joints_count > 0 {
             reader.seek(std::io::SeekFrom::Start(joints_offset as u64))?;
+            // A joint takes 84 bytes (3 u32 + 6 C3Vector)
+            joints.reserve_exact(check_count(reader, joints_count as u64, 84)?);
             for _ in 0..joints_count {
                 joints.push(M2PhysicsJoint::parse(reader)?);
             }
